@@ -9,7 +9,6 @@
 package cliinit
 
 import (
-	"fmt"
 	"os"
 	"strconv"
 	"syscall"
@@ -63,10 +62,22 @@ func init() {
 		return sim.IOAction{}
 	}}
 	tape := sim.NewRecordTape(seed)
+	line := make([]byte, 0, 128)
 	sim.Attach(tape, sim.Options{Hooks: hooks}, func(s *sim.Sched, ti *sim.TaskInfo, ev *sim.Event) {
 		if trace != nil {
 			// one unbuffered line per event: survives os.Exit and SIGKILL
-			fmt.Fprintf(trace, "%d %d %s %d\n", ev.Seq, ev.Task, ev.Name, ev.A)
+			// (no fmt here: this runs in the scheduler goroutine, whose synchronisation events the
+			// race detector is told to ignore, so fmt's pooled printers would look shared)
+			line = line[:0]
+			line = strconv.AppendInt(line, int64(ev.Seq), 10)
+			line = append(line, ' ')
+			line = strconv.AppendInt(line, int64(ev.Task), 10)
+			line = append(line, ' ')
+			line = append(line, ev.Name...)
+			line = append(line, ' ')
+			line = strconv.AppendInt(line, int64(ev.A), 10)
+			line = append(line, '\n')
+			trace.Write(line)
 		}
 		if killAt >= 0 && ev.Seq == killAt {
 			// every task is parked at a hook point: the process dies between two operations
